@@ -88,6 +88,35 @@ Wave 3 (loops; groups `line` `fold` `text` -> Gen/BodiesLine.lean, BodiesFold.le
                ('expr') a whole expression, matched by its text, that stays external as a function of the
                local variables named in TARGETS.  A method may call module-level functions translated earlier
                in the same group.  `return (a, b, c)` returns a tuple.
+  objects      (wave 4) `date`/`datetime` OBJECTS are values of the hand model's sum type (`Alarms.Trig`; an
+               optional one is `Option Trig`, true iff not None): `a > b` and `max(a, b)` are partial (TypeError
+               across kinds), `x.tzinfo is None` is partial (a date has no tzinfo).  `if x is None:` /
+               `if x is not None:` / `if not x:` on an optional value is a `match`: in the branch where
+               the value is present every later read of that variable or `self.<attr>` is the value itself.
+               `if A and B:` whose operand B can raise is the nested `if A: if B:` (Python's short circuit).
+               `@property` methods; `self.<prop>` of a property translated earlier is a call of it;
+               `self.a.b` may be declared as one parameter.  `raise <E>(..)` for the ValueError subclasses
+               of icalendar (`LocalTimezoneMissing` .. `IncompleteComponent`; the class must derive from
+               ValueError in the source), which `except ValueError` catches.  A declared return type
+               (TARGETS) lets `return x` of a present value stand for the optional.
+  components   (wave 4) a method of `Component` whose `self` is the hand model's tree `Comp` is a definition by
+               pattern matching `| .mk name' props' subs', <arguments>`: `self.name`, `self.subcomponents` are
+               the fields, `self` the whole value; its Python arguments follow the pattern, external code
+               precedes it.  `for x in self.subcomponents:` is a loop definition over `List Comp`; a call
+               `x.<the same method>(..)` is a RECURSIVE call (the definitions form a `mutual` block, structural
+               on the tree).  Arguments of such calls and of calls of other translated methods are bound BY THE
+               CALLEE'S SIGNATURE as Python does: positionally, then by keyword, then the defaults.
+               A list whose element type is declared in TARGETS (`locals`): `x = []`, `x.append(v)`, `x += ys`.
+               An argument that is a function (`select`) is applied as such.  `s.upper()` is the ASCII `upper`.
+  dict methods (wave 4) a method of `CaselessDict` whose `self` is the ordered-dict state of the hand model
+               (`CDict.Store V`): exactly ONE call `super().<m>(..)`, either returned or as the last statement
+               (the method then returns None); each `super().<m>` is a parameter - a step of the underlying
+               ordered dict: state and arguments to the new state and what the call returns (`CDict.Out V`).
+               The defaults of the method's keyword parameters are emitted as constants `<def>_default_<arg>`.
+  start / end  (wave 4, group `se`) date / datetime / other value OBJECTS are the hand model's `SE.Val`: `isinstance(x, date)`
+               is `SE.Val.isDT`, `isinstance(x, datetime)` is `SE.Val.isDatetime`, `x + td` is `SE.Val.addDur`, a
+               timedelta is the model's Int of seconds (`timedelta(days=1)` = 86400).  A call whose result is unpacked
+               (`a, b, c = self.m()`) may be declared external: the values it returned are parameters.
   fragments    a target may name a FRAGMENT: the first `for` loop of the function together with the
                constant initialisations directly in front of it; its free variables are parameters and
                its result is the tuple of the variables named in TARGETS.
@@ -109,7 +138,9 @@ class Untranslatable(X.Untranslatable):
 LEAN_TYPE = {'Int': 'Int', 'Str': 'Str', 'Bytes': 'Str', 'Bool': 'Bool', 'TD': 'TD', 'OptStr': 'Option Str',
              'PyDate': 'PyDate', 'PyDateTime': 'PyDateTime', 'PyTime': 'PyTime', 'None': 'Unit', 'StrList': 'List Str',
              'Truth': 'Bool', 'Char': 'Char', 'OptInt': 'Option Int', 'Builder': 'Str', 'IntList': 'List Int',
-             'Unbound:Int': 'Option Int'}
+             'Unbound:Int': 'Option Int', 'D': 'Trig', 'OptD': 'Option Trig', 'TDS': 'Int', 'OptTDS': 'Option Int', 'DList': 'List Trig',
+             'ATList': 'List AT', 'Comp': 'Comp', 'CompList': 'List Comp', 'Fn:Comp:Bool': 'Comp → Bool', 'Object': 'Unit', 'Vals': 'PyVals', 'Val': 'Val', 'ValList': 'List Val',
+             'Store': 'CDict.Store V', 'StepOut': 'CDict.Store V × CDict.Out V', 'V': 'V', 'OptV': 'Option V', 'Item': 'PyItem', 'ItemList': 'List PyItem', 'EntryList': 'List Entry'}
 
 
 def lean_type(t):
@@ -131,7 +162,7 @@ LEAN_KEYWORDS = {'at', 'do', 'end', 'from', 'fun', 'have', 'in', 'let', 'open', 
                  'match', 'with', 'where', 'by', 'def', 'theorem', 'namespace', 'section', 'import', 'instance',
                  'structure', 'class', 'Type', 'Prop', 'Sort', 'mutual', 'private', 'protected', 'variable',
                  'universe', 'example', 'abbrev', 'inductive', 'deriving', 'extends', 'using', 'calc', 'suffices',
-                 'obtain', 'return', 'for', 'unless', 'try', 'catch', 'finally', 'macro', 'syntax', 'notation'}
+                 'obtain', 'return', 'repeat', 'for', 'unless', 'try', 'catch', 'finally', 'macro', 'syntax', 'notation'}
 
 # What is translated.  group: which generated file; cls None: module-level function; self_type: the builtin the
 # class derives from when `self` itself is used as a value; self_attrs: `self.<attr>` -> (parameter, type);
@@ -147,8 +178,14 @@ LEAN_KEYWORDS = {'at', 'do', 'end', 'from', 'fun', 'have', 'in', 'let', 'open', 
 #                                an rtype that is not a translator type (e.g. 'P') is an OPAQUE type parameter of the definition
 #   ('expr', param, locals, rtype)   the key is a whole expression (as `ast.unparse` prints it): a function parameter
 #                                applied to the named local variables; the expression itself is not translated
-Target = namedtuple('Target', 'file cls fn lean self_type self_attrs externals optional group args fragment',
-                    defaults=('enc', None, None))
+Target = namedtuple('Target', 'file cls fn lean self_type self_attrs externals optional group args fragment ret locals',
+                    defaults=('enc', None, None, None, None))
+SED = [('start', 'OptD'), ('end_', 'OptD'), ('duration', 'OptTDS')]
+# how the object operations are spelled for the value type of a group (the hand model's type of date / datetime objects)
+OBJ = {'alarm': {'isdate': 'true', 'isdatetime': '(!(Trig.isDate {x}))', 'add': '(pyAdd {a} {b})'},
+       'se': {'isdate': '(SE.Val.isDT {x})', 'isdatetime': '(SE.Val.isDatetime {x})', 'add': '(SE.Val.addDur {a} {b})'}}
+ALARMTIME = {'_last_ack': ('last_ack', 'OptD'), '_snooze_until': ('snooze_until', 'OptD'), '_trigger': ('trigger_raw', 'D'),
+             'alarm.ACKNOWLEDGED': ('alarm_acknowledged', 'OptD')}
 TARGETS = [
     Target('prop.py', 'vDuration', 'to_ical', 'vDuration_to_ical', None, {'td': ('td', 'TD')}, {}, False),
     Target('prop.py', 'vUTCOffset', 'to_ical', 'vUTCOffset_to_ical', None, {'td': ('td', 'TD')}, {}, False),
@@ -193,19 +230,88 @@ TARGETS = [
            {'line': 'Str', 'limit': 'Int', 'fold_sep': 'Str'}),
     Target('parser.py', None, 'split_on_unescaped_comma', 'split_on_unescaped_comma', None, {}, {}, False, 'text',
            {'text': 'Str'}),
+    # ---- alarms (C15): AlarmTime.  `self.alarm.ACKNOWLEDGED` (the property `alarm` returns `self._alarm`; ACKNOWLEDGED
+    # is a property of cal.Alarm, external) is one parameter; `to_datetime` of tools.py is a function parameter
+    Target('tools.py', None, 'is_date', 'is_date', None, {}, {}, False, 'alarm', {'dt': 'D'}),
+    Target('tools.py', None, 'is_datetime', 'is_datetime', None, {}, {}, False, 'alarm', {'dt': 'D'}),
+    Target('alarms.py', 'AlarmTime', 'acknowledged', 'AlarmTime_acknowledged', None, ALARMTIME, {}, False, 'alarm',
+           None, None, 'OptD'),
+    Target('alarms.py', 'AlarmTime', 'trigger', 'AlarmTime_trigger', None, ALARMTIME,
+           {'to_datetime': ('fun', 'to_datetime', ['D'], 'D')}, False, 'alarm', None, None, 'D'),
+    Target('alarms.py', 'AlarmTime', 'is_active', 'AlarmTime_is_active', None, ALARMTIME,
+           {'to_datetime': ('fun', 'to_datetime', ['D'], 'D')}, False, 'alarm', None, None, 'Bool'),
+    # Alarms: a timedelta is the hand model's Int of seconds (`td.seconds` = seconds mod 86400); `normalize_pytz`,
+    # `to_datetime` are function parameters; `alarm.REPEAT`, `alarm.DURATION` (properties of cal.Alarm) are parameters;
+    # `self.times` (a property that builds AlarmTime objects) and `alarm_time.is_active()` are parameters of `active`
+    Target('alarms.py', 'Alarms', '_add', 'Alarms_add', None, {},
+           {'to_datetime': ('fun', 'to_datetime', ['D'], 'D'), 'normalize_pytz': ('fun', 'normalize_pytz', ['D'], 'D')},
+           False, 'alarm', {'dt': 'D', 'td': 'TDS'}, None, 'D'),
+    Target('alarms.py', 'Alarms', '_repeat', 'Alarms_repeat', None,
+           {'alarm.REPEAT': ('alarm_repeat', 'Int'), 'alarm.DURATION': ('alarm_duration', 'OptTDS')},
+           {'to_datetime': ('fun', 'to_datetime', ['D'], 'D'), 'normalize_pytz': ('fun', 'normalize_pytz', ['D'], 'D')},
+           False, 'alarm', {'first': 'D', 'alarm': 'Object'}, None, 'DList'),
+    Target('alarms.py', 'Alarms', 'active', 'Alarms_active', None, {'times': ('times', 'ATList')},
+           {'is_active': ('pmeth', 'is_active', 'AT')}, False, 'alarm', None, None, 'ATList'),
+    # ---- component trees (C20): `self` is the hand model's `Comp`; `select` is a function argument
+    Target('cal.py', 'Component', '_walk', 'Component__walk', 'Comp', {}, {}, False, 'walk',
+           {'name': 'OptStr', 'select': 'Fn:Comp:Bool'}, None, 'CompList', {'result': 'CompList'}),
+    Target('cal.py', 'Component', 'walk', 'Component_walk', 'Comp', {}, {}, False, 'walk',
+           {'name': 'OptStr', 'select': 'Fn:Comp:Bool'}, None, 'CompList'),
+    # ---- serialisation (C10): Component.property_items.  External: the value class lookup `types_factory['text']`
+    # (unused as a value), `vText(self.name).to_ical()` (the bytes of BEGIN / END, a function of the name),
+    # `self.sorted_keys()` / `self.keys()` (CaselessDict, functions of the component) and `self[name]`
+    Target('cal.py', 'Component', 'property_items', 'Component_property_items', 'Comp', {},
+           {"types_factory['text']": ('expr', None, [], 'Object'),
+            'vText(self.name).to_ical()': ('expr', 'name_to_ical', ['self.name'], 'Bytes'),
+            'self.sorted_keys': ('sfun', 'sorted_keys', 'StrList'), 'self.keys': ('sfun', 'keys', 'StrList'),
+            'self[]': ('getitem', 'getitem', 'Vals')}, False, 'ser',
+           {'recursive': 'Bool', 'sorted': 'Bool'}, None, 'ItemList', {'properties': 'ItemList'}),
+    # ---- start / end (C16): the values are the hand model's `SE.Val`; `self._get_start_end_duration()` (the validity
+    # checks, which may raise InvalidCalendar) is external: the three values it returned are parameters
+    Target('tools.py', None, 'is_date', 'is_date', None, {}, {}, False, 'se', {'dt': 'D'}),
+    Target('cal.py', 'Event', 'end', 'Event_end', None, {}, {'self._get_start_end_duration': ('tuple', SED)}, False, 'se',
+           None, None, 'OptD'),
+    Target('cal.py', 'Todo', 'end', 'Todo_end', None, {}, {'self._get_start_end_duration': ('tuple', SED)}, False, 'se',
+           None, None, 'OptD'),
+] + [   # ---- CaselessDict (C17): the delegating methods; `to_unicode` is a function parameter
+    Target('caselessdict.py', 'CaselessDict', m, 'cd_' + m.strip('_'), 'Store', {},
+           {'to_unicode': ('fun', 'to_unicode', ['Str'], 'Str'),
+            'super().' + sup: ('super', 'super_' + sup.strip('_'), [a for a in supargs])}, False, 'cdict',
+           args, None, 'StepOut')
+    for m, sup, args, supargs in (
+        ('__getitem__', '__getitem__', {'key': 'Str'}, ['Str']),
+        ('__setitem__', '__setitem__', {'key': 'Str', 'value': 'V'}, ['Str', 'V']),
+        ('__delitem__', '__delitem__', {'key': 'Str'}, ['Str']),
+        ('__contains__', '__contains__', {'key': 'Str'}, ['Str']),
+        ('get', 'get', {'key': 'Str', 'default': 'OptV'}, ['Str', 'OptV']),
+        ('setdefault', 'setdefault', {'key': 'Str', 'value': 'V'}, ['Str', 'V']),
+        ('pop', 'pop', {'key': 'Str', 'default': 'OptV'}, ['Str', 'OptV']),
+        ('popitem', 'popitem', {}, []),
+        ('move_to_end', 'move_to_end', {'key': 'Str', 'last': 'Bool'}, ['Str', 'Bool']),
+        ('has_key', '__contains__', {'key': 'Str'}, ['Str']))
 ]
 
 # a translated expression; lits: possible str literals or None; elts: the components of a tuple display
 V = namedtuple('V', 'lean type lits elts', defaults=(None,))
 Tail = namedtuple('Tail', 'names make')        # what a block continues with when its statements run out
-Done = namedtuple('Done', 'lean params rtype monadic nargs', defaults=(False, 0))  # a translated function
-EXC = {'ValueError': ['valueError'], 'OverflowError': ['overflowError'], 'KeyError': ['keyError'],
+Done = namedtuple('Done', 'lean params rtype monadic nargs objself func argtypes', defaults=(False, 0, False, None, None))  # a translated function
+SUBVALUE = {'LocalTimezoneMissing': 'localTimezoneMissing', 'ComponentStartMissing': 'componentStartMissing',
+            'ComponentEndMissing': 'componentEndMissing', 'InvalidCalendar': 'invalidCalendar',
+            'IncompleteComponent': 'incompleteComponent'}       # ValueError subclasses of icalendar
+EXC = {'ValueError': ['valueError'] + list(SUBVALUE.values()), 'OverflowError': ['overflowError'], 'KeyError': ['keyError'],
        'IndexError': ['indexError'], 'AttributeError': ['attributeError'], 'TypeError': ['typeError'],
        'LookupError': ['keyError', 'indexError'], 'ArithmeticError': ['overflowError']}
 
 
+ITER = {'Str': 'Char', 'IntList': 'Int', 'CompList': 'Comp', 'StrList': 'Str', 'ValList': 'Val'}     # what a `for` runs over
+
+
 class NeedMonad(Exception):
     """the function can raise: translate it again into `Py T`"""
+
+
+class LazyPartial(X.Untranslatable):
+    """a call that can raise stands in a lazily evaluated operand (an `if A and B:` is then tried as nested ifs)"""
 
 
 class Widen(Exception):
@@ -216,6 +322,8 @@ class Widen(Exception):
 
 
 def lname(name):
+    if name == "out'":      # the list of what a generator yields (not a Python identifier: cannot clash)
+        return name
     return name + '_' if name in LEAN_KEYWORDS or name.endswith("'") else name
 
 
@@ -243,7 +351,7 @@ def assigned(nodes):
     for s in nodes:
         for n in ast.walk(s):
             name = n.id if isinstance(n, ast.Name) and isinstance(n.ctx, ast.Store) else \
-                n.func.value.id if is_append(n) else None
+                n.func.value.id if is_append(n) else "out'" if isinstance(n, ast.Yield) else None
             if name is not None and name not in out:
                 out.append(name)
     return out
@@ -312,6 +420,11 @@ class Fn:
         self.slot_init = {}
         self.rtype_lean = None    # fragments: the Lean result type
         self.consts = {}
+        self.narrow = {}          # Lean name of an optional variable / parameter -> the value it is known to hold here
+        self.dictself = target.self_type == 'Store'  # `self` is the state of an ordered dict
+        self.objself = target.self_type == 'Comp'    # `self` is a tree: definition by pattern matching, Python arguments after it
+        self.recursive = False
+        self.super_used = False
 
     def fail(self, node, what):
         raise Untranslatable(f'{self.qual}: line {getattr(node, "lineno", "?")}: {what}')
@@ -324,7 +437,8 @@ class Fn:
     def hoist(self, node, lean, typ):
         """a call that can raise: bound by `←` before the statement, in evaluation order"""
         if self.lazy:
-            self.fail(node, f'`{ast.unparse(node)[:40]}` can raise and stands where Python may not evaluate it')
+            raise LazyPartial(f'{self.qual}: line {getattr(node, "lineno", "?")}: `{ast.unparse(node)[:40]}` can raise and '
+                              'stands where Python may not evaluate it')
         if not self.monadic:
             raise NeedMonad()
         self.fresh += 1
@@ -385,8 +499,10 @@ class Fn:
             return v.lean
         if v.type in ('Int', 'Str', 'Bytes', 'TD', 'OptStr', 'None', 'OptInt'):
             return f'(truthy {v.lean})'
-        if v.type.startswith('Match'):
+        if v.type.startswith('Match') or v.type == 'OptD':
             return f'{v.lean}.isSome'
+        if v.type == 'D':
+            return 'true'       # a date / datetime object is never false
         self.fail(node, f'truthiness of a value of type {v.type}')
 
     def test(self, node, env):
@@ -409,6 +525,13 @@ class Fn:
         return self.truth(v, node)
 
     def expr(self, node, env):
+        whole = self.t.externals.get(ast.unparse(node)) if isinstance(node, (ast.Call, ast.Subscript, ast.Attribute)) else None
+        if whole is not None and whole[0] == 'expr' and whole[1] is None:
+            return V('()', whole[3], None)      # an external value that the translated code never looks at
+        if whole is not None and whole[0] == 'expr':        # an expression that stays external, as a whole
+            args = [self.expr(ast.parse(n, mode='eval').body, env) for n in whole[2]]
+            f = self.param(whole[1], ' → '.join(lean_type(a.type) for a in args) + ' → ' + lean_type(whole[3]))
+            return V('(' + ' '.join([f.lean] + [a.lean for a in args]) + ')', whole[3], None)
         f = getattr(self, 'e_' + type(node).__name__, None)
         if f is None:
             self.fail(node, f'expression {type(node).__name__}: `{ast.unparse(node)[:50]}`')
@@ -435,6 +558,13 @@ class Fn:
         return V('', 'Tuple', None, [self.expr(e, env) for e in node.elts])
 
     def e_Subscript(self, node, env):
+        if self.objself and isinstance(node.value, ast.Name) and node.value.id == 'self' and 'self[]' in self.t.externals \
+                and not isinstance(node.slice, ast.Slice):
+            k, e = self.expr(node.slice, env), self.t.externals['self[]']
+            if k.type != 'Str':
+                self.fail(node, f'self[..] with a key of type {k.type}')
+            f = self.param(e[1], f'Comp → Str → Py {lean_type(e[2])}')     # CaselessDict.__getitem__: external, may raise
+            return self.hoist(node, f"{f.lean} (Comp.mk name' props' subs') {k.lean}", e[2])
         v, sl = self.expr(node.value, env), node.slice
         lit = lambda b: b is None or (isinstance(b, ast.Constant) and type(b.value) is int and b.value >= 0)  # noqa: E731
         if v.type != 'Str':
@@ -466,6 +596,10 @@ class Fn:
         return V(f'(pySliceI {v.lean} {a.lean} {b.lean})', 'Str', None)
 
     def e_Name(self, node, env):
+        if node.id == 'self' and self.dictself:
+            self.fail(node, '`self` of a dict method outside `super().<m>(..)`')
+        if node.id == 'self' and self.objself:
+            return V("(Comp.mk name' props' subs')", 'Comp', None)
         if node.id == 'self':
             if self.t.self_type is None:
                 self.fail(node, '`self` used as a value')
@@ -474,13 +608,25 @@ class Fn:
             return self.param('self', self.t.self_type)
         if node.id not in env:
             self.fail(node, f'name `{node.id}` is not a local variable (globals and builtins are outside the subset)')
-        v = env[node.id]
+        v = self.narrow.get(env[node.id].lean, env[node.id])
         if v.type.startswith('Unbound:'):       # a `for` target after the loop
             return self.hoist(node, f'getBound {v.lean}', v.type[8:])
         return v
 
+    def as_item(self, v, node):
+        """a pair `(name, x)` as a value: the name and what x is (bytes, a value object, what `self[name]` gave)"""
+        if v.type == 'Item':
+            return v
+        if v.type == 'Tuple' and len(v.elts) == 2 and v.elts[0].type == 'Str' and v.elts[1].type in ('Bytes', 'Val', 'Vals'):
+            b = v.elts[1]
+            iv = {'Bytes': f'(PyIV.bytes {b.lean})', 'Val': f'(PyIV.obj {b.lean})', 'Vals': f'(PyVals.toIV {b.lean})'}[b.type]
+            return V(f'({v.elts[0].lean}, {iv})', 'Item', None)
+        self.fail(node, f'a {v.type} where a pair (name, value) is expected')
+
     def e_List(self, node, env):
         vals = [self.expr(e, env) for e in node.elts]
+        if vals and all(v.type == 'Tuple' for v in vals):
+            return V('([' + ', '.join(self.as_item(v, node).lean for v in vals) + '] : List PyItem)', 'ItemList', None)
         if not vals or any(v.type != 'Str' for v in vals):
             self.fail(node, f'list display `{ast.unparse(node)[:40]}` (only non-empty lists of str; `x = []` is a statement)')
         return V('([' + ', '.join(v.lean for v in vals) + '] : List Str)', 'StrList', None)
@@ -492,15 +638,37 @@ class Fn:
                         and st.targets[0].id == node.attr and isinstance(st.value, ast.Constant):
                     return self.e_Constant(st.value, env)
             self.fail(node, f'cls.{node.attr} is not a class-level literal')
+        dotted = ast.unparse(node)
+        if self.objself and dotted in ('self.name', 'self.subcomponents'):
+            return V("name'", 'Str', None) if node.attr == 'name' else V("subs'", 'CompList', None)
+        if dotted in self.t.self_attrs and isinstance(node.value, ast.Name) and node.value.id in (self.t.args or {}):
+            v = self.param(*self.t.self_attrs[dotted])      # an attribute of an argument object, declared a parameter
+            return self.narrow.get(v.lean, v)
+        if dotted.startswith('self.') and dotted[5:] in self.t.self_attrs:
+            v = self.param(*self.t.self_attrs[dotted[5:]])
+            return self.narrow.get(v.lean, v)
         if isinstance(node.value, ast.Name) and node.value.id == 'self':
-            if node.attr not in self.t.self_attrs:
-                self.fail(node, f'attribute self.{node.attr} is not a declared parameter')
-            return self.param(*self.t.self_attrs[node.attr])
+            d = self.registry.get((self.t.cls, node.attr))
+            if d is not None and self.is_property(node.attr):      # a property of the class, translated earlier
+                for p in d.params:
+                    self.param(*p)
+                lean = ' '.join([d.lean] + [p[0] for p in d.params])
+                return self.hoist(node, lean, d.rtype) if d.monadic else V(f'({lean})', d.rtype, None)
+            self.fail(node, f'attribute self.{node.attr} is not a declared parameter')
+        if node.attr == 'tzinfo':
+            self.fail(node, '`.tzinfo` outside `x.tzinfo is None`')
         base = self.expr(node.value, env)
+        if base.type == 'TDS' and node.attr in ('seconds', 'days'):     # a timedelta given by its seconds
+            f = 'pyMod' if node.attr == 'seconds' else 'floorDiv'
+            return V(f'({f} {base.lean} (86400 : Int))', 'Int', None)
         if node.attr not in RECORDS.get(base.type, {}):
             self.fail(node, f'attribute .{node.attr} of a value of type {base.type}')
         proj, typ = RECORDS[base.type][node.attr]
         return V(f'{base.lean}.{proj}', typ, None)
+
+    def is_property(self, name):
+        return any(isinstance(st, ast.FunctionDef) and st.name == name
+                   and [ast.unparse(d) for d in st.decorator_list] == ['property'] for st in self.cls.body)
 
     def e_UnaryOp(self, node, env):
         if isinstance(node.op, ast.Not):
@@ -521,12 +689,18 @@ class Fn:
             a = self.hoist(node, f'intOfOpt {a.lean}', 'Int') if a.type == 'OptInt' else a
             b = self.hoist(node, f'intOfOpt {b.lean}', 'Int') if b.type == 'OptInt' else b
         k, ts = type(op).__name__, (a.type, b.type)
+        if k == 'Add' and ts == ('D', 'TDS'):       # date / datetime object + timedelta: the hand model's `pyAdd`
+            return V(OBJ[self.t.group]['add'].format(a=a.lean, b=b.lean), 'D', None)
+        if k == 'Mult' and ts in (('TDS', 'Int'), ('Int', 'TDS')):
+            return V(f'({a.lean} * {b.lean})', 'TDS', None)
         if ts == ('Int', 'Int') and k in ('Add', 'Sub', 'Mult'):
             return V(f'({a.lean} {dict(Add="+", Sub="-", Mult="*")[k]} {b.lean})', 'Int', None)
         if ts == ('Int', 'Int') and k in ('FloorDiv', 'Mod'):
             if not (isinstance(right_node, ast.Constant) and type(right_node.value) is int and right_node.value != 0):
                 self.fail(node, f'{k} whose divisor is not a non-zero int literal')
             return V(f'({"floorDiv" if k == "FloorDiv" else "pyMod"} {a.lean} {b.lean})', 'Int', None)
+        if k == 'Add' and a.type == b.type and a.type in ('CompList', 'ItemList', 'StrList'):
+            return V(f'({a.lean} ++ {b.lean})', a.type, None)
         if k == 'Add' and ts in (('Str', 'Str'), ('Bytes', 'Bytes')):
             return V(f'({a.lean} ++ {b.lean})', a.type, None)
         if k == 'Sub' and ts == ('TD', 'TD'):
@@ -542,6 +716,18 @@ class Fn:
         if len(node.ops) != 1:
             self.fail(node, 'chained comparison')
         k = type(node.ops[0]).__name__
+        none = isinstance(node.comparators[0], ast.Constant) and node.comparators[0].value is None
+        if k in ('Is', 'IsNot') and none and isinstance(node.left, ast.Attribute) and node.left.attr == 'tzinfo':
+            x = self.expr(node.left.value, env)
+            if x.type == 'D':       # a date has no tzinfo: AttributeError
+                g = self.hoist(node, f'tzinfoIsNone {x.lean}', 'Bool')
+                return g if k == 'Is' else V(f'(!{g.lean})', 'Bool', None)
+        if k in ('Is', 'IsNot') and none:
+            x = self.expr(node.left, env)
+            if x.type in ('OptD', 'OptInt', 'OptStr', 'OptTDS'):
+                return V(f'{x.lean}.{"isNone" if k == "Is" else "isSome"}', 'Bool', None)
+            if x.type in ('D', 'Int', 'Str', 'TD', 'TDS'):
+                return V('false' if k == 'Is' else 'true', 'Bool', None)
         a, b = self.expr(node.left, env), self.expr(node.comparators[0], env)
         ts = (a.type, b.type)
         if ts == ('Int', 'Int') and k in ('Lt', 'LtE', 'Gt', 'GtE'):
@@ -551,8 +737,13 @@ class Fn:
         if ts in (('Int', 'OptInt'), ('OptInt', 'Int'), ('OptInt', 'OptInt')) and k in ('Eq', 'NotEq'):
             w = lambda v: f'(some {v.lean})' if v.type == 'Int' else v.lean   # noqa: E731
             return V(f'({w(a)} {"==" if k == "Eq" else "!="} {w(b)})', 'Bool', None)
+        if ts == ('Str', 'OptStr') and k in ('Eq', 'NotEq'):
+            return V(f'(some {a.lean} {"==" if k == "Eq" else "!="} {b.lean})', 'Bool', None)
         if ts == ('OptStr', 'Str') and k in ('Eq', 'NotEq'):
             return V(f'({a.lean} {"==" if k == "Eq" else "!="} some {b.lean})', 'Bool', None)
+        if ts == ('D', 'D') and k in ('Gt', 'Lt'):     # date / datetime objects: TypeError across kinds
+            x, y = (a, b) if k == 'Gt' else (b, a)
+            return self.hoist(node, f'dtGt {x.lean} {y.lean}', 'Bool')
         if ts == ('TD', 'TD') and k in ('Lt', 'Gt', 'LtE', 'GtE'):
             x, y = (a, b) if k in ('Lt', 'LtE') else (b, a)
             return V(f'(TD.{"lt" if k in ("Lt", "Gt") else "le"} {x.lean} {y.lean})', 'Bool', None)
@@ -625,6 +816,35 @@ class Fn:
             parts.append(f'(fmtZ {int(spec[0].value[1:])} {v.lean})')
         return V('(' + ' ++ '.join(parts) + ')' if parts else '([] : Str)', 'Str', None)
 
+    def bound_args(self, node, funcdef, types, env):
+        """the arguments of a call, bound by the callee's signature as Python does: positional, keyword, defaults"""
+        params = [a.arg for a in funcdef.args.args][1:]
+        defaults = dict(zip(params[len(params) - len(funcdef.args.defaults):], funcdef.args.defaults))
+        if funcdef.args.vararg or funcdef.args.kwarg or funcdef.args.kwonlyargs or any(isinstance(a, ast.Starred) for a in node.args) \
+                or len(node.args) > len(params):
+            self.fail(node, f'call `{ast.unparse(node)[:50]}` does not fit the signature of the callee')
+        given = dict(zip(params, node.args))
+        for k in node.keywords:
+            if k.arg is None or k.arg not in params or k.arg in given:
+                self.fail(node, f'keyword argument `{k.arg}` of `{ast.unparse(node)[:40]}`')
+            given[k.arg] = k.value
+        out = []
+        for p, typ in zip(params, types):
+            if p in given:
+                v = self.expr(given[p], env)
+            elif p in defaults and isinstance(defaults[p], ast.Constant):
+                v = self.e_Constant(defaults[p], env)       # the default of the callee
+            else:
+                self.fail(node, f'argument `{p}` of `{ast.unparse(node)[:40]}` is missing and has no constant default')
+            if v.type == 'Str' and typ == 'OptStr':
+                v = V(f'(some {v.lean})', 'OptStr', None)
+            if v.type == 'None' and typ.startswith('Opt'):
+                v = V('none', typ, None)
+            if v.type != typ:
+                self.fail(node, f'argument `{p}` of `{ast.unparse(node)[:40]}` is a {v.type}, the callee takes a {typ}')
+            out.append(v)
+        return out
+
     def call_args(self, node, env):
         """positional arguments; `*t` spreads a tuple display"""
         out = []
@@ -648,6 +868,25 @@ class Fn:
                 return self.hoist(node, f'{f} {v.lean} ({arg.values[1].value} : Int)', 'Int')
         v = self.expr(arg, env)
         return self.hoist(node, f'intOfStr {v.lean}', 'Int') if v.type == 'Str' else None
+
+    def imported_targets(self, name):
+        """`from icalendar.<mod> import <name>` of a function translated earlier in this group"""
+        return {f'icalendar.{t.file[:-3]}.{name}' for t in TARGETS
+                if t.group == self.t.group and t.cls is None and t.fn == name and (None, name) in self.registry}
+
+    def e_ListComp(self, node, env):
+        """`[x for x in xs if x.m()]` over a list of opaque objects whose method `m` is a parameter"""
+        g = node.generators[0]
+        if len(node.generators) == 1 and not g.is_async and isinstance(g.target, ast.Name) and len(g.ifs) == 1 \
+                and isinstance(node.elt, ast.Name) and node.elt.id == g.target.id:
+            c, xs = g.ifs[0], self.expr(g.iter, env)
+            if isinstance(c, ast.Call) and isinstance(c.func, ast.Attribute) and isinstance(c.func.value, ast.Name) \
+                    and c.func.value.id == g.target.id and not c.args and not c.keywords:
+                ext = self.t.externals.get(c.func.attr)
+                if ext is not None and ext[0] == 'pmeth' and xs.type == ext[2] + 'List':
+                    p = self.param(ext[1], f'{ext[2]} → Py Bool')
+                    return self.hoist(node, f'pyFilterM {p.lean} {xs.lean}', xs.type)
+        self.fail(node, f'list comprehension `{ast.unparse(node)[:50]}`')
 
     def is_utf8(self, node):
         """the literal 'utf-8', or DEFAULT_ENCODING of parser_tools.py with that value"""
@@ -673,11 +912,76 @@ class Fn:
 
     def e_Call(self, node, env):
         whole = self.t.externals.get(ast.unparse(node))
+        if whole is not None and whole[0] == 'expr' and whole[1] is None:
+            return V('()', whole[3], None)      # an external value that the translated code never looks at
         if whole is not None and whole[0] == 'expr':        # an expression that stays external, as a whole
-            args = [self.expr(ast.Name(id=n, ctx=ast.Load()), env) for n in whole[2]]
+            args = [self.expr(ast.parse(n, mode='eval').body, env) for n in whole[2]]
             f = self.param(whole[1], ' → '.join(lean_type(a.type) for a in args) + ' → ' + lean_type(whole[3]))
             return V('(' + ' '.join([f.lean] + [a.lean for a in args]) + ')', whole[3], None)
         fn, callee = node.func, ast.unparse(node.func)
+        if callee in self.t.externals and self.t.externals[callee][0] == 'tuple' and not node.args and not node.keywords:
+            # an external call whose result is unpacked: the values it returned are parameters
+            return V('', 'Tuple', None, [self.param(p, t) for p, t in self.t.externals[callee][1]])
+        if self.dictself and callee in self.t.externals and self.t.externals[callee][0] == 'super' and not node.keywords:
+            e = self.t.externals[callee]        # a step of the underlying ordered dict
+            args = self.call_args(node, env)
+            if [a.type for a in args] != e[2]:
+                self.fail(node, f'{callee}(..) with arguments {[a.type for a in args]}, declared {e[2]}')
+            if self.super_used:
+                self.fail(node, 'a second super() call (only one step of the underlying dict is modelled)')
+            self.super_used = True
+            f = self.param(e[1], ' → '.join(['CDict.Store V'] + [lean_type(t) for t in e[2]] + ['CDict.Store V × CDict.Out V']))
+            return V('(' + ' '.join([f.lean, "self'"] + [a.lean for a in args]) + ')', 'StepOut', None)
+        if isinstance(fn, ast.Name) and fn.id in env and env[fn.id].type.startswith('Fn:') and not node.keywords:
+            _, at, rt = env[fn.id].type.split(':')       # an argument that is a function
+            args = self.call_args(node, env)
+            if [a.type for a in args] != [at]:
+                self.fail(node, f'call of the function argument `{fn.id}` with {[a.type for a in args]}')
+            return V(f'({env[fn.id].lean} {args[0].lean})', rt, None)
+        if isinstance(fn, ast.Attribute) and fn.attr == 'upper' and not node.args and not node.keywords:
+            x = self.expr(fn.value, env)
+            if x.type == 'Str':     # ASCII upper-casing (the models' convention; Python's is Unicode)
+                return V(f'(upper {x.lean})', 'Str', None)
+        if isinstance(fn, ast.Attribute) and self.objself:
+            recv = self.expr(fn.value, env) if not (isinstance(fn.value, ast.Name) and fn.value.id in ('cls',)) else None
+            if recv is not None and recv.type == 'Comp':
+                if fn.attr == self.t.fn:        # the method itself, on another component: recursion
+                    if self.t.ret is None:
+                        self.fail(node, 'recursive call of a function whose return type is not declared')
+                    args = self.bound_args(node, self.func, list((self.t.args or {}).values()), env)
+                    self.recursive = True
+                    lean = ' '.join([self.t.lean + '«EXT»', recv.lean] + [a.lean for a in args])
+                    return self.hoist(node, lean, self.t.ret) if self.monadic else V(f'({lean})', self.t.ret, None)
+                d = self.registry.get((self.t.cls, fn.attr))
+                if d is not None and d.objself:     # another translated method of the class
+                    args = self.bound_args(node, d.func, d.argtypes, env)
+                    ext = [self.param(*p).lean for p in d.params]
+                    lean = ' '.join([d.lean] + ext + [recv.lean] + [a.lean for a in args])
+                    return self.hoist(node, lean, d.rtype) if d.monadic else V(f'({lean})', d.rtype, None)
+        if callee in self.t.externals and self.t.externals[callee][0] == 'sfun' and self.objself and not node.args and not node.keywords:
+            e = self.t.externals[callee]        # a method of `self` that stays external: a function of the component
+            f = self.param(e[1], f'Comp → {lean_type(e[2])}')
+            return V(f"({f.lean} (Comp.mk name' props' subs'))", e[2], None)
+        if callee == 'isinstance' and 'isinstance' not in self.modnames and len(node.args) == 2 and not node.keywords \
+                and isinstance(node.args[1], ast.Name) and node.args[1].id == 'list' and 'list' not in self.modnames:
+            x = self.expr(node.args[0], env)
+            if x.type == 'Vals':
+                return V(f'(PyVals.isList {x.lean})', 'Bool', None)
+        if callee == 'isinstance' and 'isinstance' not in self.modnames and len(node.args) == 2 and not node.keywords \
+                and isinstance(node.args[1], ast.Name) and node.args[1].id in ('date', 'datetime') \
+                and self.modnames.get(node.args[1].id) == 'datetime.' + node.args[1].id:
+            x = self.expr(node.args[0], env)
+            if x.type == 'D':       # a datetime IS a date (subclass); the value type tells which one it is
+                return V(OBJ[self.t.group]['is' + node.args[1].id].format(x=x.lean), 'Bool', None)
+        if isinstance(fn, ast.Attribute) and isinstance(fn.value, ast.Name) and fn.value.id == 'self' \
+                and (self.t.cls, fn.attr) in self.registry and not self.is_property(fn.attr) and not node.keywords:
+            d = self.registry[(self.t.cls, fn.attr)]       # a method of the class, translated earlier
+            args = self.call_args(node, env)
+            if [a.type for a in args] != [p[1] for p in d.params[:d.nargs]]:
+                self.fail(node, f'call self.{fn.attr}(...): argument types {[a.type for a in args]}')
+            rest = [self.param(*p).lean for p in d.params[d.nargs:]]
+            lean = ' '.join([d.lean] + [a.lean for a in args] + rest)
+            return self.hoist(node, lean, d.rtype) if d.monadic else V(f'({lean})', d.rtype, None)
         ext = self.t.externals.get(callee)
         if ext is not None and ext[0] in ('proc', 'pfun') and (not isinstance(fn, ast.Name) or fn.id not in env):
             kws = ext[4] if ext[0] == 'pfun' else {}
@@ -769,7 +1073,8 @@ class Fn:
                 self.fail(node, f'external call {fn.id}({", ".join(got)}): expected arguments {args}')
             return self.param(res, typ)
         d = self.registry.get((None, fn.id))
-        if d is not None and self.modnames.get(fn.id) == 'def' and not node.keywords:
+        if d is not None and (self.modnames.get(fn.id) == 'def' or self.modnames.get(fn.id) in self.imported_targets(fn.id)) \
+                and not node.keywords:
             args = self.call_args(node, env)
             if [a.type for a in args] != [p[1] for p in d.params[:d.nargs]]:
                 self.fail(node, f'call {fn.id}(...): argument types {[a.type for a in args]}')
@@ -787,6 +1092,8 @@ class Fn:
         if fn.id == 'timedelta' and not node.args and node.keywords:
             units = ['weeks', 'days', 'hours', 'minutes', 'seconds']
             kw = {k.arg: self.expr(k.value, env) for k in node.keywords}
+            if self.t.group == 'se' and len(kw) == len(node.keywords) and set(kw) <= set(units) and all(v.type == 'Int' for v in kw.values()):
+                return V('(tdsOfUnits ' + ' '.join(kw[u].lean if u in kw else '(0 : Int)' for u in units) + ')', 'TDS', None)
             if len(kw) == len(node.keywords) and set(kw) <= set(units) and all(v.type == 'Int' for v in kw.values()):
                 return V('(TD.ofUnits ' + ' '.join(kw[u].lean if u in kw else '(0 : Int)' for u in units) + ')', 'TD', None)
         if node.keywords:
@@ -802,6 +1109,13 @@ class Fn:
             v = self.int_of(node, node.args[0], env)
             if v is not None:
                 return v
+        if fn.id == 'max' and 'max' not in self.modnames and len(node.args) == 2 and not node.keywords:
+            a, b = [self.expr(x, env) for x in node.args]
+            if (a.type, b.type) == ('D', 'D'):
+                return self.hoist(node, f'dtMax {a.lean} {b.lean}', 'D')
+            if (a.type, b.type) == ('Int', 'Int'):
+                return V(f'(if decide ({b.lean} > {a.lean}) then {b.lean} else {a.lean})', 'Int', None)
+            self.fail(node, f'max() of {a.type}, {b.type}')
         if fn.id == 'len' and len(node.args) == 1 and isinstance(node.args[0], ast.Call) \
                 and isinstance(node.args[0].func, ast.Attribute) and node.args[0].func.attr == 'encode' \
                 and len(node.args[0].args) == 1 and not node.args[0].keywords and self.is_utf8(node.args[0].args[0]):
@@ -843,6 +1157,7 @@ class Fn:
             return env, None
         if name in self.slots:
             v = self.coerce(name, v)
+        self.narrow.pop(lname(name), None)     # the variable is rebound: what was known about it no longer holds
         self.consts[name] = v.lean if v.lean in ('(0 : Int)', '(1 : Int)') else None    # the literal it holds, if 0 / 1
         env[name] = V(lname(name), v.type, v.lits)
         return env, f'let {lname(name)} : {lean_type(v.type)} := {v.lean}'
@@ -908,10 +1223,12 @@ class Fn:
             if v.type == 'Tuple' and all(e.type != 'Tuple' for e in v.elts):       # a tuple display of values
                 self.rtype_lean = ' × '.join(lean_type(e.type) for e in v.elts)
                 v = V('(' + ', '.join(e.lean for e in v.elts) + ')', 'Tuple:' + self.rtype_lean, None)
-            elif v.type not in ('Str', 'Bytes', 'Int', 'Bool', 'TD', 'PyDate', 'PyTime', 'PyDateTime', 'StrList'):
+            elif v.type not in ('Str', 'Bytes', 'Int', 'Bool', 'TD', 'PyDate', 'PyTime', 'PyDateTime', 'StrList', 'D', 'OptD', 'DList', 'ATList', 'CompList', 'ItemList', 'StepOut'):
                 self.fail(s, f'return of a value of type {v.type}')
-            if self.rtype not in (None, v.type):
-                self.fail(s, f'returns both {self.rtype} and {v.type}')
+            if self.t.ret == 'OptD' and v.type == 'D':       # a present value where the function returns an optional
+                v = V(f'(some {v.lean})', 'OptD', None)
+            if self.rtype not in (None, v.type) or (self.t.ret is not None and v.type != self.t.ret):
+                self.fail(s, f'returns both {self.rtype or self.t.ret} and {v.type}')
             self.rtype = v.type
             if self.loopctx:
                 return self.take_pre() + [self.ret(f'(Loop.ret {v.lean})')]
@@ -928,33 +1245,56 @@ class Fn:
             return self.for_(s, rest, env, tail)
         if isinstance(s, ast.While):
             return self.while_(s, rest, env, tail)
+        if isinstance(s, ast.Expr) and isinstance(s.value, ast.Call) and self.dictself \
+                and self.t.externals.get(ast.unparse(s.value.func), ('',))[0] == 'super':
+            if rest:
+                self.fail(rest[0], 'statement after the super() call')
+            v = self.expr(s.value, env)     # what super().<m>() returns is dropped: the method returns None
+            self.rtype = 'StepOut'
+            return self.take_pre() + [self.ret(f'(dropResult {v.lean})')]
         if isinstance(s, ast.Expr) and isinstance(s.value, ast.Call) \
                 and self.t.externals.get(ast.unparse(s.value.func), ('',))[0] == 'proc':
             self.expr(s.value, env)         # hoisted: it may raise; its result is not used
             return self.take_pre() + self.block(rest, env, tail)
+        if isinstance(s, ast.Expr) and isinstance(s.value, ast.Yield) and s.value.value is not None and "out'" in env:
+            v = self.expr(s.value.value, env)       # a generator is the list of what it yields
+            if v.type != 'D':
+                self.fail(s, f'yield of a value of type {v.type}')
+            env = dict(env)
+            env["out'"] = V("out'", 'DList', None)
+            return self.take_pre() + [f"let out' : List Trig := (out' ++ [{v.lean}])"] + self.block(rest, env, tail)
         if isinstance(s, ast.Expr) and is_append(s.value):
             name = s.value.func.value.id
-            if name not in env or env[name].type not in ('Builder', 'StrList'):
+            if name not in env or env[name].type not in ('Builder', 'StrList', 'CompList', 'ItemList'):
                 self.fail(s, f'`{name}.append(..)` on something that is not a local list')
             x, v = env[name], self.expr(s.value.args[0], env)
             if x.type == 'Builder' and v.type in ('Str', 'Char'):
                 new = V(f'({x.lean} ++ {v.lean})' if v.type == 'Str' else f'({x.lean} ++ [{v.lean}])', 'Builder', None)
             elif x.type == 'StrList' and v.type == 'Str':
                 new = V(f'({x.lean} ++ [{v.lean}])', 'StrList', None)
+            elif x.type == 'ItemList' and v.type == 'Tuple':
+                new = V(f'({x.lean} ++ [{self.as_item(v, s).lean}])', 'ItemList', None)
+            elif (x.type, v.type) in (('CompList', 'Comp'), ('ItemList', 'Item')):
+                new = V(f'({x.lean} ++ [{v.lean}])', x.type, None)
             else:
                 self.fail(s, f'append of a {v.type} to a {x.type}')
             env, line = self.bind(env, name, new)
             return self.take_pre() + [line] + self.block(rest, env, tail)
         if isinstance(s, ast.Assign) and len(s.targets) == 1 and isinstance(s.targets[0], ast.Name) \
                 and isinstance(s.value, ast.List) and not s.value.elts:
-            kind = self.listkind(s, s.targets[0].id)
-            v = V('([] : Str)', 'Builder', None) if kind == 'Builder' else V('([] : List Str)', 'StrList', None)
+            declared = (self.t.locals or {}).get(s.targets[0].id)
+            kind = declared or self.listkind(s, s.targets[0].id)
+            v = V('([] : Str)', 'Builder', None) if kind == 'Builder' else V(f'([] : {lean_type(kind)})', kind, None)
             env, line = self.bind(env, s.targets[0].id, v)
             return [line] + self.block(rest, env, tail)
         if isinstance(s, ast.Raise):
             e = s.exc.func if isinstance(s.exc, ast.Call) else s.exc
+            if isinstance(e, ast.Name) and e.id in SUBVALUE and self.derives_from_valueerror(e.id):
+                if not self.monadic:
+                    raise NeedMonad()
+                return [f'throw Exc.{SUBVALUE[e.id]}']
             if not (isinstance(e, ast.Name) and e.id == 'ValueError' and 'ValueError' not in self.modnames):
-                self.fail(s, f'`{ast.unparse(s)[:50]}` (only `raise ValueError(...)`)')
+                self.fail(s, f'`{ast.unparse(s)[:50]}` (only `raise ValueError(...)` and its icalendar subclasses)')
             if not self.monadic:
                 raise NeedMonad()
             return ['throw Exc.valueError']      # the message is not part of the model
@@ -988,6 +1328,31 @@ class Fn:
             return self.if_(s, rest, env, tail)
         self.fail(s, f'statement {type(s).__name__}: `{ast.unparse(s).splitlines()[0][:50]}`')
 
+    def lazy_probe(self, test, env):
+        return self.test(test, env)
+
+    def narrowing(self, test, env):
+        """`x is None` / `x is not None` / `not x` / `x` on an optional value that is a variable or a `self.<attr>`
+        parameter: (the value, whether the body is the branch where it is present)"""
+        neg = False
+        if isinstance(test, ast.UnaryOp) and isinstance(test.op, ast.Not):
+            test, neg = test.operand, True
+        if isinstance(test, ast.Compare) and len(test.ops) == 1 and isinstance(test.ops[0], (ast.Is, ast.IsNot)) \
+                and isinstance(test.comparators[0], ast.Constant) and test.comparators[0].value is None:
+            x, present = test.left, isinstance(test.ops[0], ast.IsNot)
+        else:
+            x, present = test, True
+        if not isinstance(x, (ast.Name, ast.Attribute)) or (isinstance(x, ast.Name) and x.id in self.slots):
+            return None
+        if isinstance(x, ast.Name) and (x.id not in env or x.id == 'self'):
+            return None
+        if isinstance(x, ast.Attribute) and not (ast.unparse(x).startswith('self.') and ast.unparse(x)[5:] in self.t.self_attrs):
+            return None
+        v = self.expr(x, env)
+        if v.type not in ('OptD', 'OptTDS', 'OptStr') or not re.fullmatch(r"[A-Za-z_][\w']*", v.lean):
+            return None
+        return v, present != neg
+
     def try_(self, s, rest, env, tail):
         """`try: BODY except <classes>: raise ValueError(...)`"""
         h = s.handlers[0] if len(s.handlers) == 1 else None
@@ -1012,6 +1377,8 @@ class Fn:
         names = [] if h.type is None else [ast.unparse(x) for x in (h.type.elts if isinstance(h.type, ast.Tuple) else [h.type])]
         if h.type is None or 'Exception' in names or 'BaseException' in names:
             wrap = 'remapAll'
+        elif names == ['ValueError'] and 'ValueError' not in self.modnames:
+            wrap = 'remap valueErrors'       # ValueError and its icalendar subclasses
         elif all(n in EXC and n not in self.modnames for n in names):
             wrap = 'remap [' + ', '.join('.' + c for n in names for c in EXC[n]) + ']'
         else:
@@ -1056,41 +1423,79 @@ class Fn:
                 self.notes.append(f'line {s.lineno}: `{ast.unparse(s.test)}` is {st} here; lines '
                                   f'{skipped[0].lineno}-{skipped[-1].end_lineno} are not translated')
             return self.block((s.body if st else s.orelse) + rest, env, tail)
+        ind = lambda ls: ['  ' + x for x in ls]   # noqa: E731
+        nar = self.narrowing(s.test, env)
+        if nar is not None:     # a test for None on an optional value: a `match`; the present value is used from there on
+            x, present_first = nar
+            self.fresh += 1
+            v = f"n{self.fresh}'"
+            pre = self.take_pre()
+            old = dict(self.narrow)
+            some_b, none_b = (s.body, s.orelse) if present_first else (s.orelse, s.body)
+            nb = self.block(none_b + rest, env, tail)
+            self.narrow[x.lean] = V(v, {'OptD': 'D', 'OptTDS': 'TDS', 'OptStr': 'Str'}[x.type], None)
+            try:
+                sb = self.block(some_b + rest, env, tail)
+            finally:
+                self.narrow = old
+            do = ' do' if self.monadic else ''
+            return pre + [f'match {x.lean} with', f'| none =>{do}'] + ind(nb) + [f'| some {v} =>{do}'] + ind(sb)
+        if isinstance(s.test, ast.BoolOp) and isinstance(s.test.op, ast.And) and len(s.test.values) == 2:
+            saved = (self.fresh, list(self.used), list(self.pre))
+            try:
+                if self.narrowing(s.test.values[0], env) is not None or self.narrowing(s.test.values[1], env) is not None:
+                    raise LazyPartial('a test for None guards the second operand')
+                c = self.lazy_probe(s.test, env)
+            except LazyPartial:     # `if A and B:` with B able to raise: Python evaluates B only when A is true
+                self.fresh, self.used, self.pre = saved[0], saved[1], saved[2]
+                inner = ast.If(test=s.test.values[1], body=s.body, orelse=s.orelse)
+                outer = ast.If(test=s.test.values[0], body=[inner], orelse=s.orelse)
+                for n in (inner, outer):
+                    ast.copy_location(n, s)
+                    n.end_lineno = s.end_lineno
+                return self.if_(outer, rest, env, tail)
         c = self.test(s.test, env)
         pre = self.take_pre()
-        ind = lambda ls: ['  ' + x for x in ls]   # noqa: E731
         if has_return([s]):
             a = self.block(s.body + rest, env, tail)
             b = self.block(s.orelse + rest, env, tail)
             return pre + [f'if {c} then'] + ind(a) + ['else'] + ind(b)
         later = reads(rest) | set(tail.names)
         merged = [n for n in assigned(s.body + s.orelse) if n in later]
-        ends = []
+        ends_a, ends_b = [], []
 
-        def make(e):
-            for n in merged:
-                if n not in e:
-                    self.fail(s, f'`{n}` is read later but bound on one path only')
-            ends.append([e[n] for n in merged])
-            return ['(' + ', '.join(e[n].lean for n in merged) + ')'] if merged else ['()']
+        def maker(store):
+            def make(e):
+                for n in merged:
+                    if n not in e:
+                        self.fail(s, f'`{n}` is read later but bound on one path only')
+                store.append([e[n] for n in merged])
+                return ['«T»(' + ', '.join(e[n].lean for n in merged) + ')'] if merged else ['«T»()']
+            return make
         self.fresh += 1
         m = f"m{self.fresh}'"
-        a = self.block(s.body, env, Tail(merged, make))
-        b = self.block(s.orelse, env, Tail(merged, make))
+        a = self.block(s.body, env, Tail(merged, maker(ends_a)))
+        b = self.block(s.orelse, env, Tail(merged, maker(ends_b)))
         if not merged:          # no effect on what follows (the branches were still checked against the subset)
             return self.block(rest, env, tail)
+        for es in ends_a[1:] + ends_b[1:]:      # a branch that ends in several places (a `match` on an optional value)
+            if [x.type for x in es] != [x.type for x in (ends_a if es in ends_a else ends_b)[0]]:
+                self.fail(s, 'a variable has different types at the ends of one branch')
+        ends = [ends_a[0], ends_b[0]]
+        single = len(ends_a) == 1 and len(ends_b) == 1
         for k, (n, x, y) in enumerate(zip(merged, ends[0], ends[1])):
-            if {x.type, y.type} == {'Int', 'OptInt'}:       # an int on one path, int-or-None on the other
+            if {x.type, y.type} == {'Int', 'OptInt'} and single:       # an int on one path, int-or-None on the other
                 for br, es in ((a, ends[0]), (b, ends[1])):
                     if es[k].type == 'Int':
                         es[k] = V(f'(some {es[k].lean})', 'OptInt', None)
-                        br[-1] = '(' + ', '.join(z.lean for z in es) + ')'
+                        br[-1] = '«T»(' + ', '.join(z.lean for z in es) + ')'
                 x, y = ends[0][k], ends[1][k]
             if x.type != y.type:
                 self.fail(s, f'`{n}` is {x.type} on one path and {y.type} on the other')
         typ = ' × '.join(lean_type(x.type) for x in ends[0])
-        if any('←' in ln or 'throw ' in ln for ln in a + b):       # a branch can raise: the merge is a bind
-            a[-1], b[-1] = 'pure ' + a[-1], 'pure ' + b[-1]
+        mon = any('←' in ln or 'throw ' in ln for ln in a + b)
+        a, b = ([ln.replace('«T»', 'pure ' if mon else '') for ln in br] for br in (a, b))
+        if mon:       # a branch can raise: the merge is a bind
             lines = pre + [f'let {m} : {typ} ← (', f'  if {c} then do'] + ind(ind(a)) + ['  else do'] + ind(ind(b))
         else:
             lines = pre + [f'let {m} : {typ} := (', f'  if {c} then'] + ind(ind(a)) + ['  else'] + ind(ind(b))
@@ -1101,6 +1506,24 @@ class Fn:
             env, line = self.bind(env, n, V(proj, x.type, lits))
             lines.append(line)
         return lines + self.block(rest, env, tail)
+
+    def derives_from_valueerror(self, name, tree=None, seen=0):
+        """the exception class is defined (here or in the icalendar module it is imported from) with a base chain
+        that ends in ValueError"""
+        tree, how = tree or self.tree, module_bindings(tree or self.tree).get(name)
+        if seen > 6 or how is None:
+            return False
+        if how != 'def':
+            mod = how.rsplit('.', 1)[0]
+            if not mod.startswith('icalendar.'):
+                return False
+            other = X.parse(os.path.join(self.src_dir, *mod.split('.')[1:]) + '.py')
+            return self.derives_from_valueerror(how.rsplit('.', 1)[1], other, seen + 1)
+        for n in tree.body:
+            if isinstance(n, ast.ClassDef) and n.name == name:
+                bases = [ast.unparse(b) for b in n.bases]
+                return bases == ['ValueError'] or (len(bases) == 1 and self.derives_from_valueerror(bases[0], tree, seen + 1))
+        return False
 
     def listkind(self, node, name):
         """`name = []`: how is the list used in the whole function"""
@@ -1137,9 +1560,18 @@ class Fn:
             cname = tgt.id
         else:
             self.fail(s, f'loop target `{ast.unparse(tgt)}`')
-        itv = self.expr(it, env)
-        if itv.type != 'Str' or s.orelse:
-            self.fail(s, f'`for` over a value of type {itv.type}' if itv.type != 'Str' else '`for .. else`')
+        if isinstance(it, ast.Call) and isinstance(it.func, ast.Name) and it.func.id == 'range' and 'range' not in self.modnames \
+                and 'range' not in env and len(it.args) in (2, 3) and not it.keywords and iname is None:
+            ra = [self.expr(a, env) for a in it.args] + ([V('(1 : Int)', 'Int', None)] if len(it.args) == 2 else [])
+            if any(a.type != 'Int' for a in ra):
+                self.fail(s, 'range(..) of values that are not ints')
+            itv = self.hoist(s, 'pyRange ' + ' '.join(a.lean for a in ra), 'IntList')   # the range is built once
+        else:
+            itv = self.expr(it, env)
+        if itv.type == 'Vals':      # iterating what `self[name]` gave: a TypeError unless it is a list
+            itv = self.hoist(s, f'PyVals.elems {itv.lean}', 'ValList')
+        if itv.type not in ITER or s.orelse:
+            self.fail(s, f'`for` over a value of type {itv.type}' if itv.type not in ITER else '`for .. else`')
         return self.loop(s, rest, env, tail, iname, cname, itv, None)
 
     def while_(self, s, rest, env, tail):
@@ -1158,8 +1590,9 @@ class Fn:
 
     def loop(self, s, rest, env, tail, iname, cname, itv, fuel):
         """a `for` over the characters of `itv` (fuel None) or a `while` on fuel: a separate recursive definition"""
-        if self.loopctx:
-            self.fail(s, 'nested loop')
+        outer = (self.slots, self.slot_init, self.loopctx)      # a loop inside a loop body: its own definition
+        if self.loopctx and any(isinstance(n, (ast.Break, ast.Continue, ast.Return)) for st in s.body for n in ast.walk(st)):
+            self.fail(s, 'nested loop with break / continue / return')
         pre0 = self.take_pre()
         targets = {iname, cname} - {None}
         asg = assigned(s.body)
@@ -1180,30 +1613,33 @@ class Fn:
         self.nloops += 1
         name = f'{self.t.lean}_loop{self.nloops}'
         slots = {n: env[n].type for n in state}
-        self.slot_init = {n: self.consts.get(n) for n in state}    # the 0 / 1 literal a state variable starts with
+        init_consts = {n: self.consts.get(n) for n in state}
+        self.slot_init = dict(outer[1], **init_consts)    # the 0 / 1 literal a state variable starts with
         saved = (self.fresh, list(self.used), self.rtype, list(self.notes))
         while True:
             try:
-                self.slots = dict(slots)
-                res = self.loop_body(s, env, state, slots, name, iname, cname, last, inner_ret, fuel)
+                self.slots = dict(outer[0], **slots)
+                self.slot_init = dict(outer[1], **init_consts)
+                res = self.loop_body(s, env, state, slots, name, iname, cname, last, inner_ret, fuel, itv)
                 break
             except Widen as w:
                 slots[w.name] = w.typ
                 self.fresh, self.used, self.rtype, self.notes = saved[0], list(saved[1]), saved[2], list(saved[3])
                 self.pre = []
             finally:
-                self.slots, self.loopctx = {}, []
+                self.slots, self.slot_init, self.loopctx = outer
         body, test_lines = res
         # what the definition needs from the enclosing function: parameters and locals its text mentions
         text = '\n'.join(body + test_lines)
         word = lambda n: re.search(r"(?<![\w'.])" + re.escape(n) + r"(?![\w'])", text) is not None   # noqa: E731
         inner = {lname(n) for n in state} | {lname(x) for x in targets} | {"rest'", "fuel'"}
         caps = []
-        for n, typ in [(p, t) for p, t in self.used] + [(v.lean, v.type) for v in env.values() if v.type != 'Tuple']:
+        for n, typ in ([("name'", 'Str'), ("props'", 'EntryList'), ("subs'", 'CompList')] if self.objself else [(p, t) for p, t in self.used]) + [(v.lean, v.type) for v in env.values() if v.type != 'Tuple'] \
+                + [(v.lean, v.type) for v in self.narrow.values()]:
             if re.fullmatch(r"[A-Za-z_][\w']*", n) and n not in inner and word(n) and n not in [c[0] for c in caps]:
                 caps.append((n, typ))
-        capsig = ''.join(f' ({n} : {lean_type(t)})' for n, t in caps)
-        capargs = ''.join(' ' + n for n, _ in caps)
+        capsig = ('«EXTSIG»' if self.objself else '') + ''.join(f' ({n} : {lean_type(t)})' for n, t in caps)
+        capargs = ('«EXT»' if self.objself else '') + ''.join(' ' + n for n, _ in caps)
         body = [ln.replace(' «CAP»', capargs) for ln in body]
         sigma = [lean_type(slots[n]) for n in state] + (['Option Int'] if last else [])
         sig_t = ' × '.join(sigma) if sigma else 'Unit'
@@ -1219,7 +1655,7 @@ class Fn:
               + ('; fuel: running out of it is `Exc.fuel`' if fuel else '') + ' -/'
         if fuel is None:
             idx_t = (['Int'] if iname else []) + (['Option Int'] if last else [])
-            typ = ' → '.join(idx_t + [lean_type(slots[n]) for n in state] + ['Str', res_t])
+            typ = ' → '.join(idx_t + [lean_type(slots[n]) for n in state] + [lean_type(itv.type), res_t])
             pi = ([lname(iname)] if iname else []) + ([lname(iname) + "L'"] if last else [])
             base = fell(names + ([lname(iname) + "L'"] if last else []))
             pc = ([lname(iname)] if iname else []) + (['_'] if last else [])
@@ -1227,14 +1663,14 @@ class Fn:
                  '  | ' + ', '.join(pi + names + ['[]']) + ' => ' + base,
                  '  | ' + ', '.join(pc + names + [f"{lname(cname)} :: rest'"]) + ' =>' + do] + ind(ind(body))
             init = ([f'(0 : Int)'] if iname else []) + (['none'] if last else [])
-            call = ' '.join([name + capargs] + init + [self.coerce_init(n, env[n], slots[n]) for n in state] + [itv.lean])
+            call = ' '.join([name + capargs] + init + [self.coerce_init(n, env[n], slots[n], init_consts) for n in state] + [itv.lean])
         else:
             typ = ' → '.join(['Nat'] + [lean_type(slots[n]) for n in state] + [res_t])
             d = [doc, f'def {name}{capsig} : {typ}',
                  '  | ' + ', '.join(['0'] + ['_'] * len(names)) + ' => throw Exc.fuel',
                  '  | ' + ', '.join(["fuel' + 1"] + names) + ' => do'] + ind(ind(
                      test_lines[:-1] + [f'if {test_lines[-1]} then'] + ind(body) + ['else', '  ' + fell(names)]))
-            call = ' '.join([name + capargs, fuel] + [self.coerce_init(n, env[n], slots[n]) for n in state])
+            call = ' '.join([name + capargs, fuel] + [self.coerce_init(n, env[n], slots[n], init_consts) for n in state])
         self.aux.append('\n'.join(d))
         self.fresh += 1
         r = f"l{self.fresh}'"
@@ -1257,21 +1693,21 @@ class Fn:
         return lines + [f'match {r} with', f"| Loop.ret v' => {self.ret(chr(118) + chr(39))}", f"| Loop.fell s' =>" + do] \
             + ind(ls + self.block(rest, env, tail))
 
-    def coerce_init(self, name, v, slot):
+    def coerce_init(self, name, v, slot, consts=None):
         if slot == 'Bool' and v.type == 'Int':      # widened: the literal the variable holds
-            v = V(self.slot_init[name], 'Int', None)
-        self.slots = {name: slot}
+            v = V((consts or self.slot_init)[name], 'Int', None)
+        keep, self.slots = self.slots, {name: slot}
         try:
             return self.coerce(name, v).lean
         finally:
-            self.slots = {}
+            self.slots = keep
 
-    def loop_body(self, s, env, state, slots, name, iname, cname, last, inner_ret, fuel):
+    def loop_body(self, s, env, state, slots, name, iname, cname, last, inner_ret, fuel, itv=None):
         benv = dict(env)
         for n in state:
             benv[n] = V(lname(n), slots[n], None)
         if cname:
-            benv[cname] = V(lname(cname), 'Char', None)
+            benv[cname] = V(lname(cname), ITER[itv.type] if itv is not None else 'Char', None)
         if iname:
             benv[iname] = V(lname(iname), 'Int', None)
         cur = lambda e: [e[n].lean for n in state]   # noqa: E731
@@ -1300,30 +1736,45 @@ class Fn:
         if t.fragment:
             return self.translate_fragment()
         decos = [ast.unparse(d) for d in self.func.decorator_list]
-        first = {(): ['self'], ('classmethod',): ['cls'], ('staticmethod',): []}.get(tuple(decos)) if t.cls else []
+        first = {(): ['self'], ('property',): ['self'], ('classmethod',): ['cls'], ('staticmethod',): []}.get(tuple(decos)) \
+            if t.cls else []
         names = [x.arg for x in a.args]
         if first is None or a.vararg or a.kwarg or a.kwonlyargs or a.posonlyargs or names != first + list(t.args or {}):
             self.fail(self.func, f'signature ({", ".join(names)}) / decorators {decos} differ from the declared ones')
         defaults = dict(zip(names[len(names) - len(a.defaults):], a.defaults))
         env = {}
         for n, typ in (t.args or {}).items():
+            if typ == 'Object':     # an object that is only used through attributes declared as parameters
+                continue
             if typ == 'None':       # specialised to the default, which must be None
                 if not (n in defaults and isinstance(defaults[n], ast.Constant) and defaults[n].value is None):
                     self.fail(self.func, f'argument `{n}` is specialised to None but its default is not None')
                 env[n] = V('()', 'None', None)
+            elif self.objself:      # Python arguments follow the tree in the pattern
+                env[n] = V(lname(n), typ, None)
             else:
                 env[n] = self.param(lname(n), typ)
         self.nargs = len(self.used)
 
-        def off_end(env):
+        gen = any(isinstance(n, (ast.Yield, ast.YieldFrom)) for n in ast.walk(self.func))
+
+        def off_end(e):
+            if gen:     # a generator that is exhausted: the list of what it yielded
+                self.rtype = 'DList'
+                return [self.ret(e["out'"].lean)]
             self.fail(self.func, 'a path reaches the end of the function without `return`')
+        if gen:
+            if any(isinstance(n, (ast.Return, ast.YieldFrom)) for n in ast.walk(self.func)):
+                self.fail(self.func, 'generator with `return` / `yield from`')
+            env["out'"] = V("out'", 'DList', None)
+        top = Tail(["out'"] if gen else [], off_end)
         saved = list(self.used)
         try:
-            return self.block(self.func.body, env, Tail([], off_end))
+            return self.block(self.func.body, env, top)
         except NeedMonad:
             self.monadic, self.used, self.rtype, self.fresh, self.pre, self.notes = True, saved, None, 0, [], []
-            self.aux, self.nloops, self.loopctx, self.slots = [], 0, [], {}
-            return self.block(self.func.body, env, Tail([], off_end))
+            self.aux, self.nloops, self.loopctx, self.slots, self.narrow = [], 0, [], {}, {}
+            return self.block(self.func.body, env, top)
 
     def translate_fragment(self):
         """the first `for` loop of the function and the constant initialisations directly in front of it; the free
@@ -1353,10 +1804,10 @@ class Fn:
 
 # ---------------------------------------------------------------- driver
 
-PARAM_DOC = {'TD': 'timedelta, whole seconds', 'PyDate': 'date: year month day', 'OptStr': 'str or None',
+PARAM_DOC = {'V': 'a value', 'OptV': 'a value or None', 'Comp': 'a component (tree)', 'CompList': 'a list of components', 'Fn:Comp:Bool': 'a function of a component', 'TDS': 'a timedelta, as its seconds', 'OptTDS': 'a timedelta (seconds) or None', 'ATList': 'a list of opaque objects', 'D': 'a date or datetime object', 'OptD': 'a datetime or None', 'TD': 'timedelta, whole seconds', 'PyDate': 'date: year month day', 'OptStr': 'str or None',
              'PyDateTime': 'datetime: year month day hour minute second', 'Int': 'int', 'Bool': 'bool', 'Str': 'str',
              'StrList': 'list of str'}
-RETURN_DOC = {'StrList': 'a list of str', 'Tuple': 'a tuple', 'Bytes': 'bytes (as the str they encode)', 'TD': 'a timedelta', 'PyDate': 'a date', 'PyTime': 'a time',
+RETURN_DOC = {'StepOut': 'the new state of the dict and what the call returns', 'ItemList': 'a list of pairs (name, value)', 'CompList': 'a list of components', 'DList': 'a list of dates / datetimes', 'ATList': 'a list of the same objects', 'D': 'a date or datetime', 'OptD': 'a datetime or None', 'StrList': 'a list of str', 'Tuple': 'a tuple', 'Bytes': 'bytes (as the str they encode)', 'TD': 'a timedelta', 'PyDate': 'a date', 'PyTime': 'a time',
               'PyDateTime': 'a datetime'}
 HEADERS = {
     'enc': ['/- GENERATED by tools/py2lean.py (called from tools/extract.py) from the function bodies in',
@@ -1385,6 +1836,46 @@ HEADERS = {
 }
 NAMESPACE = {'enc': 'ICal.Gen.Bodies', 'dec': 'ICal.Gen.BodiesDec', 'parser': 'ICal.Gen.BodiesParser',
              'line': 'ICal.Gen.BodiesLine', 'fold': 'ICal.Gen.BodiesFold', 'text': 'ICal.Gen.BodiesText'}
+NAMESPACE['alarm'] = 'ICal.Gen.BodiesAlarm'
+HEADERS['alarm'] = ['/- GENERATED by tools/py2lean.py (called from tools/extract.py) from function bodies of',
+                    '   src/icalendar/alarms.py. Do not edit: regenerated on every run; lean/ICal/Lemmas/BodiesAlarm.lean proves',
+                    '   each definition equal to the hand-written model (ICal/Model/Alarm.lean).  date / datetime OBJECTS are',
+                    '   values of the hand model\'s `Alarms.Trig`; Python\'s operations on them (`>`, `max`, `.tzinfo is None`)',
+                    '   are the partial functions of ICal/Model/PyRTAlarm.lean; a test for None on an optional value is a `match`. -/',
+                    'import ICal.Model.PyRTAlarm', 'set_option linter.unusedVariables false', 'namespace ICal.Gen.BodiesAlarm',
+                    'open ICal ICal.PyRT ICal.Alarms', '']
+NAMESPACE['se'] = 'ICal.Gen.BodiesSE'
+HEADERS['se'] = ['/- GENERATED by tools/py2lean.py (called from tools/extract.py) from Event.end / Todo.end of src/icalendar/cal.py and',
+                 '   tools.is_date. Do not edit: regenerated on every run; lean/ICal/Lemmas/BodiesSE.lean proves each equal to the',
+                 '   hand-written model (ICal/Model/StartEnd.lean).  Value objects are the model\'s `SE.Val` (written `Trig` below),',
+                 '   a timedelta is its Int of seconds; a test for None on an optional value is a `match`. -/',
+                 'import ICal.Model.PyRT', 'import ICal.Model.StartEnd', 'set_option linter.unusedVariables false',
+                 'namespace ICal.Gen.BodiesSE', 'open ICal ICal.PyRT', 'abbrev Trig := SE.Val', '']
+NAMESPACE['cdict'] = 'ICal.Gen.BodiesCDict'
+HEADERS['cdict'] = ['/- GENERATED by tools/py2lean.py (called from tools/extract.py) from the delegating methods of CaselessDict in',
+                    '   src/icalendar/caselessdict.py. Do not edit: regenerated on every run; lean/ICal/Lemmas/BodiesCDict.lean proves',
+                    '   each equal to the step of the hand-written model (ICal/Model/CDict.lean).  `self\'` is the state of the',
+                    '   underlying ordered dict; `super().<m>` is a parameter: a step of that dict. -/',
+                    'import ICal.Model.PyRT', 'import ICal.Model.CDict', 'set_option linter.unusedVariables false',
+                    'namespace ICal.Gen.BodiesCDict', 'open ICal ICal.PyRT', '',
+                    '/-- a method that returns None after its super() call: an exception of the step stays, its result is dropped -/',
+                    'def dropResult {V : Type} (r : CDict.Store V × CDict.Out V) : CDict.Store V × CDict.Out V :=',
+                    '  (r.1, match r.2 with | .err e => .err e | _ => .none)', '']
+NAMESPACE['ser'] = 'ICal.Gen.BodiesSer'
+HEADERS['ser'] = ['/- GENERATED by tools/py2lean.py (called from tools/extract.py) from Component.property_items of',
+                  '   src/icalendar/cal.py. Do not edit: regenerated on every run; lean/ICal/Lemmas/BodiesSer.lean proves it',
+                  '   equal to the hand-written model (ICal/Model/Ser.lean).  `self` is the tree `Comp`; the objects it handles',
+                  '   are those of ICal/Model/PyRTSer.lean; call arguments are bound by the callee\'s signature. -/',
+                  'import ICal.Model.PyRTSer', 'set_option linter.unusedVariables false',
+                  'namespace ICal.Gen.BodiesSer', 'open ICal ICal.PyRT', '']
+NAMESPACE['walk'] = 'ICal.Gen.BodiesWalk'
+HEADERS['walk'] = ['/- GENERATED by tools/py2lean.py (called from tools/extract.py) from Component._walk / walk of',
+                   '   src/icalendar/cal.py. Do not edit: regenerated on every run; lean/ICal/Lemmas/BodiesWalk.lean proves each',
+                   '   definition equal to the hand-written model (ICal/Model/Walk.lean).  `self` is the tree `Comp` of',
+                   '   ICal/Model/Tree.lean (definition by pattern matching, recursion over `self.subcomponents` as a `mutual`',
+                   '   block); call arguments are bound by the callee\'s signature. -/',
+                   'import ICal.Model.PyRT', 'import ICal.Model.Tree', 'set_option linter.unusedVariables false',
+                   'namespace ICal.Gen.BodiesWalk', 'open ICal ICal.PyRT', '']
 for _g, _what in (('line', 'content-line'), ('fold', 'folding'), ('text', 'TEXT-list')):
     _n = NAMESPACE[_g].split('.')[-1]
     HEADERS[_g] = [f'/- GENERATED by tools/py2lean.py (called from tools/extract.py) from the {_what} function bodies of',
@@ -1430,8 +1921,9 @@ def translate(src_dir, group='enc'):
             out += [f'/- NOT TRANSLATED `{qual}` (AST fingerprint {fp}): outside the subset:',
                     f'   {comment_safe(str(e))} -/', '']
             continue
-        registry[(t.cls, t.fn)] = Done(t.lean, list(fn.used), fn.rtype, fn.monadic, fn.nargs)
-        src_of = {p: f'self.{a}' for a, (p, _) in t.self_attrs.items()}
+        registry[(t.cls, t.fn)] = Done(t.lean, list(fn.used), fn.rtype, fn.monadic, fn.nargs, fn.objself, func,
+                                       [v for v in (t.args or {}).values()])
+        src_of = {p: (a if a.split('.')[0] in (t.args or {}) else f'self.{a}') for a, (p, _) in t.self_attrs.items()}
         src_of.update({lname(a): f'argument {a}' for a in (t.args or {})})
         for f, e in t.externals.items():
             if not isinstance(e[0], str):
@@ -1444,11 +1936,23 @@ def translate(src_dir, group='enc'):
                 src_of[e[1]] = f'{f}(..): None or the groups'
             elif e[0] in ('proc', 'pfun'):
                 src_of[e[1]] = f'the function {f} (external; it may raise)'
+            elif e[0] == 'tuple':
+                for k, (pn, _) in enumerate(e[1]):
+                    src_of[pn] = f'value {k + 1} of what {f}() returned (external; the call may raise)'
+            elif e[0] == 'super':
+                src_of[e[1]] = f'{f}(..) as a step of the underlying ordered dict'
+            elif e[0] == 'sfun':
+                src_of[e[1]] = f'the method {f}() as a function of the component (external)'
+            elif e[0] == 'getitem':
+                src_of[e[1]] = 'self[name] as a function of the component and the key (external; it may raise)'
+            elif e[0] == 'expr' and e[1] is None:
+                pass
             elif e[0] == 'expr':
                 src_of[e[1]] = f'the expression {f[:60]}.. as a function of ({", ".join(e[2])}) (external, not translated)'
         src_of['self'] = f'self (a {t.cls} is {dict(Int="an int", Str="a str").get(t.self_type)})'
         pdoc = '; '.join(f'`{p}` = `{src_of.get(p, "parameter of a callee")}` ({PARAM_DOC.get(ty, ty)})'
                          for p, ty in fn.used) or 'none'
+        start = len(out)
         for d in fn.aux:
             out += [d, '']
         out.append(f'/-- `{qual}` (AST fingerprint {fp}).  Parameters: {comment_safe(pdoc)}.')
@@ -1460,11 +1964,45 @@ def translate(src_dir, group='enc'):
         rdoc = 'a tuple' if fn.rtype.startswith('Tuple') else RETURN_DOC.get(fn.rtype, fn.rtype.lower())
         out.append(f'    Returns {rdoc}{"; can raise (Py)" if fn.monadic else ""}. -/')
         sig = ''.join(f' ({p} : {lean_type(ty)})' for p, ty in fn.used)
-        opaque = sorted({e[3] for e in t.externals.values() if isinstance(e[0], str) and e[0] in ('pfun', 'expr') and e[3] not in LEAN_TYPE})
+        opaque = sorted({e[3] for e in t.externals.values() if isinstance(e[0], str) and e[0] in ('pfun', 'expr') and e[3] not in LEAN_TYPE and e[3] != 'Object'})
+        opaque = sorted(set(opaque) | {o for o in ('AT',) if re.search(r'\b' + o + r'\b', sig)})
         sig = ''.join(f' {{{o} : Type}}' for o in opaque) + sig
         rt = fn.rtype_lean or lean_type(fn.rtype)
-        out.append(f'def {t.lean}{sig} : {"Py (" + rt + ")" if fn.monadic and " " in rt else "Py " + rt if fn.monadic else rt} :='
-                   + (' do' if fn.monadic else ''))
+        res_t = "Py (" + rt + ")" if fn.monadic and " " in rt else "Py " + rt if fn.monadic else rt
+        if fn.dictself:     # the state of the dict comes right after the external parameters
+            k = len(fn.used) - fn.nargs
+            sig = ' {V : Type}' + ''.join(f' ({p} : {lean_type(ty)})' for p, ty in fn.used[fn.nargs:]) \
+                + " (self' : CDict.Store V)" + ''.join(f' ({p} : {lean_type(ty)})' for p, ty in fn.used[:fn.nargs])
+            out.append(f'def {t.lean}{sig} : {res_t} :=')
+            out += ['  ' + ln for ln in body]
+            out.append('')
+            names = [x.arg for x in func.args.args]
+            for n, dflt in zip(names[len(names) - len(func.args.defaults):], func.args.defaults):
+                typ = (t.args or {}).get(n)
+                lit = {('OptV', None): '(none : Option Unit)', ('Bool', True): 'true', ('Bool', False): 'false'}.get(
+                    (typ, dflt.value if isinstance(dflt, ast.Constant) else '?'))
+                if lit is None and not (typ == 'V' and isinstance(dflt, ast.Constant) and dflt.value is None):
+                    raise Untranslatable(f'{qual}: default `{ast.unparse(dflt)}` of `{n}` (a {typ})')
+                out.append(f'/-- the default of `{n}` in the signature of `{qual}`: `{ast.unparse(dflt)}`'
+                           + (' (a value like any other)' if lit is None else '') + ' -/')
+                out.append(f'def {t.lean}_default_{n} := {lit or "()"}')
+                out.append('')
+            continue
+        if fn.objself:      # by pattern matching on the tree; the Python arguments follow it
+            argt = ['(' + lean_type(v) + ')' if '→' in lean_type(v) else lean_type(v) for v in (t.args or {}).values()]
+            out.append(f'def {t.lean}{sig} : ' + ' → '.join(['Comp'] + argt + [res_t]))
+            out.append("  | " + ', '.join([".mk name' props' subs'"] + [lname(a) for a in (t.args or {})]) + ' =>' + (' do' if fn.monadic else ''))
+            out += ['    ' + ln for ln in body]
+            out.append('')
+            ext = ''.join(' ' + p for p, _ in fn.used)
+            out[start:] = [ln.replace('«EXTSIG»', sig).replace('«EXT»', ext) for ln in out[start:]]
+            if fn.recursive:
+                out.insert(start, 'mutual')
+                out[-1:] = ['end', '']
+            continue
+        out.append(f'def {t.lean}{sig} : {res_t} :=' + (' do' if fn.monadic else ''))
+        if any(isinstance(n, ast.Yield) for n in ast.walk(func)):
+            out.append("  let out' : List Trig := []")
         out += ['  ' + ln for ln in body]
         out.append('')
     out.append(f'end {NAMESPACE[group]}')
